@@ -14,15 +14,17 @@
 EXTENDS Integers, Sequences, FiniteSets, TLC
 
 CONSTANTS Slots, MaxOps
-SigKinds == {"nocal", "calonly", "auth", "pub", "pub2", "broken"}        \* forms of one signed document; pub2: extended to a later publication
+(* forms of one signed document; pub2: extended to a later publication; nonmin: the pub form with one inner TLV header in non-minimal (16-bit) *)
+(* encoding -- accepted by the parser, so everything but "re-serializes to the parsed bytes" applies to it as well                              *)
+SigKinds == {"nocal", "calonly", "auth", "pub", "pub2", "broken", "nonmin"}
 Free == [base |-> "-", ext |-> "-", lvl |-> 0]
 Contents == [base : SigKinds, ext : {"none", "head", "later", "pubrec1", "pubrec2"}, lvl : 0..4]
 
 VARIABLES obj, ops, log
 vars == <<obj, ops, log>>
 Live == {s \in Slots : obj[s] # Free}
-HasPubRec(c) == (c.base \in {"pub", "pub2"} /\ c.ext = "none") \/ c.ext \in {"pubrec1", "pubrec2"}
-PubRecOf(c) == IF c.ext = "pubrec1" \/ (c.ext = "none" /\ c.base = "pub") THEN "pubrec1" ELSE "pubrec2"
+HasPubRec(c) == (c.base \in {"pub", "pub2", "nonmin"} /\ c.ext = "none") \/ c.ext \in {"pubrec1", "pubrec2"}
+PubRecOf(c) == IF c.ext = "pubrec1" \/ (c.ext = "none" /\ c.base \in {"pub", "nonmin"}) THEN "pubrec1" ELSE "pubrec2"
 Extendable(c) == c.base # "broken" /\ c.ext = "none" /\ c.base # "pub2"
 
 Init == obj = [s \in Slots |-> Free] /\ ops = <<>> /\ log = 0
